@@ -72,8 +72,59 @@ def linesOfC : Nat → List (List Byte) → List (List Byte)
 
 /-! ### The lexer buffer and `Parser::command_line` -/
 
-def toChars (bs : List Byte) : List Char := bs.map fun b => Char.ofNat b.toNat
-def toBytes (cs : List Char) : List Byte := cs.map fun c => c.toNat.toUInt8
+/-! ### UTF-8 (`std::str::from_utf8` on a buffer of at most four bytes) -/
+
+/-- outcome of `from_utf8(&buffer[..len])`: one complete character (its code point), a valid but
+    incomplete sequence (`error_len() == None`), or an invalid one -/
+inductive U8 where
+  | ok (code : Nat)
+  | more
+  | bad
+  deriving DecidableEq, Repr
+
+def isCont (b : Byte) : Bool := 0x80 ≤ b.toNat && b.toNat ≤ 0xBF
+
+/-- the second byte allowed after the lead byte `a` of a three- or four-byte sequence -/
+def second2 (a b : Byte) : Bool :=
+  if a.toNat = 0xE0 then 0xA0 ≤ b.toNat && b.toNat ≤ 0xBF
+  else if a.toNat = 0xED then 0x80 ≤ b.toNat && b.toNat ≤ 0x9F
+  else if a.toNat = 0xF0 then 0x90 ≤ b.toNat && b.toNat ≤ 0xBF
+  else if a.toNat = 0xF4 then 0x80 ≤ b.toNat && b.toNat ≤ 0x8F
+  else isCont b
+
+def utf8Check : List Byte → U8
+  | [] => .more
+  | [a] =>
+    if a.toNat < 0x80 then .ok a.toNat
+    else if 0xC2 ≤ a.toNat ∧ a.toNat ≤ 0xF4 then .more else .bad
+  | [a, b] =>
+    if 0xC2 ≤ a.toNat ∧ a.toNat ≤ 0xDF then
+      (if isCont b then .ok ((a.toNat - 0xC0) * 64 + (b.toNat - 0x80)) else .bad)
+    else if 0xE0 ≤ a.toNat ∧ a.toNat ≤ 0xF4 ∧ second2 a b then .more else .bad
+  | [a, b, c] =>
+    if 0xE0 ≤ a.toNat ∧ a.toNat ≤ 0xEF then
+      (if second2 a b ∧ isCont c
+       then .ok ((a.toNat - 0xE0) * 4096 + (b.toNat - 0x80) * 64 + (c.toNat - 0x80)) else .bad)
+    else if 0xF0 ≤ a.toNat ∧ a.toNat ≤ 0xF4 ∧ second2 a b ∧ isCont c then .more else .bad
+  | [a, b, c, d] =>
+    if 0xF0 ≤ a.toNat ∧ a.toNat ≤ 0xF4 ∧ second2 a b ∧ isCont c ∧ isCont d
+    then .ok ((a.toNat - 0xF0) * 262144 + (b.toNat - 0x80) * 4096 + (c.toNat - 0x80) * 64
+              + (d.toNat - 0x80))
+    else .bad
+  | _ => .bad
+
+/-- `String::from_utf8` / `from_utf8_lossy` of a line: complete characters; an invalid or truncated
+    sequence becomes U+FFFD (the generator never produces one) -/
+def decodeGo (buf : List Byte) : List Byte → List Char
+  | [] => if buf.isEmpty then [] else [Char.ofNat 0xFFFD]
+  | b :: rest =>
+    match utf8Check (buf ++ [b]) with
+    | .ok code => Char.ofNat code :: decodeGo [] rest
+    | .more => decodeGo (buf ++ [b]) rest
+    | .bad => Char.ofNat 0xFFFD :: decodeGo [] rest
+
+def toChars (bs : List Byte) : List Char := decodeGo [] bs
+def toBytes (cs : List Char) : List Byte := (String.ofList cs).toUTF8.toList
 
 /-- What one iteration of the read-eval loop pulled: the text now in the lexer buffer
     (`LexerCore::source`), the input left on the descriptor, and the parser's answer. -/
@@ -136,20 +187,91 @@ def getVar (vars : List (String × String)) (n : String) : String :=
 def setVar (vars : List (String × String)) (n v : String) : List (String × String) :=
   (n, v) :: vars.filter (·.1 != n)
 
-/-- `read` of `read/input.rs`: characters with their quoting, whether the delimiter was found, the
-    rest of the stream.  A backslash-newline pair is a line continuation unless `raw`. -/
-def readLineGo (raw : Bool) : Bool → List Byte → List (Char × Bool) → (List (Char × Bool) × Bool × List Byte)
-  | _, [], acc => (acc, false, [])                                       -- `None => break false`
-  | true, c :: rest, acc =>                                              -- the character after `\`
-    if c = NL then readLineGo raw false rest acc                         -- line continuation
-    else readLineGo raw false rest (acc ++ [(Char.ofNat c.toNat, true)])
-  | false, b :: rest, acc =>
-    if b = NL then (acc, true, rest)                                     -- delimiter
-    else if b = 92 ∧ !raw then readLineGo raw true rest acc              -- backslash escape
-    else readLineGo raw false rest (acc ++ [(Char.ofNat b.toNat, false)])
+/-- result of one `read_char` -/
+inductive RC where
+  | eof                 -- `Ok(None)`
+  | char (code : Nat)   -- `Ok(Some(c))`
+  | err                 -- `Err(EILSEQ)`
+  deriving DecidableEq, Repr
+
+/-- `read_char` of `read/input.rs`: bytes are read **one at a time** into `buffer` until
+    `from_utf8(&buffer[..len])` is a complete character, so that nothing beyond the character is
+    consumed.  `buf` is `buffer[..len]`. -/
+def readCharGo (buf : List Byte) : List Byte → RC × List Byte
+  | [] => (if buf = [] then .eof else .err, [])          -- `count == 0`
+  | b :: rest =>
+    match utf8Check (buf ++ [b]) with
+    | .ok code => (.char code, rest)
+    | .more => readCharGo (buf ++ [b]) rest              -- `error_len() == None => continue`
+    | .bad => (.err, rest)
+
+def readChar (inp : List Byte) : RC × List Byte := readCharGo [] inp
+
+/-- `read_char` over a chunked source (one `read(fd, buf, 1)` per byte, see `read1`) -/
+def readCharCGo (buf : List Byte) (cs : List (List Byte)) : RC × List (List Byte) :=
+  match cs with
+  | [] => (if buf = [] then .eof else .err, [])
+  | [] :: cs' => readCharCGo buf cs'
+  | (b :: c) :: cs' =>
+    match utf8Check (buf ++ [b]) with
+    | .ok code => (.char code, c :: cs')
+    | .more => readCharCGo (buf ++ [b]) (c :: cs')
+    | .bad => (.err, c :: cs')
+termination_by chunkMeasure cs
+decreasing_by
+  all_goals simp [chunkMeasure]
+  all_goals omega
+
+/-- how a `read` ended -/
+inductive RStat where
+  | found     -- the delimiter (newline) was read
+  | eof       -- end of input before a delimiter
+  | err       -- `read_char` failed (invalid UTF-8)
+  deriving DecidableEq, Repr
+
+/-- `read` of `read/input.rs` with `read_char` inlined: one byte per step; `buf` holds the bytes of
+    the character being assembled, `esc` says that the previous character was an unquoted backslash.
+    Result: characters with their quoting, how it ended, the rest of the stream.  A backslash-newline
+    pair is a line continuation unless `raw`. -/
+def readLineGo (raw : Bool) : Bool → List Byte → List Byte → List (Char × Bool) →
+    (List (Char × Bool) × RStat × List Byte)
+  | _, buf, [], acc => (acc, if buf = [] then .eof else .err, [])       -- `None => break false`
+  | esc, buf, b :: rest, acc =>
+    match utf8Check (buf ++ [b]) with
+    | .more => readLineGo raw esc (buf ++ [b]) rest acc
+    | .bad => (acc, .err, rest)
+    | .ok code =>
+      if esc then                                                         -- the character after `\`
+        (if code = 10 then readLineGo raw false [] rest acc               -- line continuation
+         else readLineGo raw false [] rest (acc ++ [(Char.ofNat code, true)]))
+      else if code = 10 then (acc, .found, rest)                          -- delimiter
+      else if code = 92 ∧ !raw then readLineGo raw true [] rest acc       -- backslash escape
+      else readLineGo raw false [] rest (acc ++ [(Char.ofNat code, false)])
 
 def readLine (raw : Bool) (inp : List Byte) (acc : List (Char × Bool)) :
-    List (Char × Bool) × Bool × List Byte := readLineGo raw false inp acc
+    List (Char × Bool) × RStat × List Byte := readLineGo raw false [] inp acc
+
+/-- the same `read` over a chunked source -/
+def readLineCGo (raw : Bool) (esc : Bool) (buf : List Byte) (cs : List (List Byte))
+    (acc : List (Char × Bool)) : List (Char × Bool) × RStat × List (List Byte) :=
+  match cs with
+  | [] => (acc, if buf = [] then .eof else .err, [])
+  | [] :: cs' => readLineCGo raw esc buf cs' acc
+  | (b :: c) :: cs' =>
+    match utf8Check (buf ++ [b]) with
+    | .more => readLineCGo raw esc (buf ++ [b]) (c :: cs') acc
+    | .bad => (acc, .err, c :: cs')
+    | .ok code =>
+      if esc then
+        (if code = 10 then readLineCGo raw false [] (c :: cs') acc
+         else readLineCGo raw false [] (c :: cs') (acc ++ [(Char.ofNat code, true)]))
+      else if code = 10 then (acc, .found, c :: cs')
+      else if code = 92 ∧ !raw then readLineCGo raw true [] (c :: cs') acc
+      else readLineCGo raw false [] (c :: cs') (acc ++ [(Char.ofNat code, false)])
+termination_by chunkMeasure cs
+decreasing_by
+  all_goals simp [chunkMeasure]
+  all_goals omega
 
 def isIfsWs (p : Char × Bool) : Bool := !p.2 && (p.1 == ' ' || p.1 == '\t')
 
@@ -250,8 +372,9 @@ def outLines : Nat → List Byte → List Out
 def execRead (s : State) (raw : Bool) (names : List String) : State :=
   let r := readLine raw s.stdin []
   let s' := s.setStdin r.2.2 (s.stdin.length - r.2.2.length)
-  { s' with vars := assignRead names r.1 s'.vars, status := if r.2.1 then 0 else 1,
-            hitEof := s'.hitEof || (s'.shared && !r.2.1) }
+  { s' with vars := if r.2.1 = .err then s'.vars else assignRead names r.1 s'.vars,
+            status := match r.2.1 with | .found => 0 | .eof => 1 | .err => 3,
+            hitEof := s'.hitEof || (s'.shared && r.2.1 != .found) }
 
 /-- `cat`: a here-document if there is one, otherwise everything left on standard input -/
 def execCat (s : State) (bodies : List (List Char)) (here : Option Nat) : State :=
